@@ -29,6 +29,9 @@ use super::rtps_traits::RtpsWriter;
 
 pub struct RegisteredInstanceInfo {
     pub instance_handle: InstanceHandle,
+    /// Cleared by unregister_instance. The entry itself stays, because the samples of the
+    /// instance are still in the history and keep counting towards the resource limits.
+    pub registered: bool,
     pub last_write_time: Option<Time>,
     pub samples: VecDeque<i64>,
 }
@@ -47,6 +50,47 @@ pub struct DataWriterEntity<T> {
     pub last_change_sequence_number: i64,
     pub qos: DataWriterQos,
     pub registered_instance_info: Vec<RegisteredInstanceInfo>,
+}
+
+impl<T> DataWriterEntity<T> {
+    /// An instance is known to the writer from register_instance / the first write
+    /// until unregister_instance.
+    pub fn is_registered(&self, instance_handle: &InstanceHandle) -> bool {
+        self.registered_instance_info
+            .iter()
+            .any(|x| x.registered && &x.instance_handle == instance_handle)
+    }
+
+    fn has_room_for_new_instance(&self) -> bool {
+        self.registered_instance_info
+            .iter()
+            .filter(|x| x.registered)
+            .count()
+            < self.qos.resource_limits.max_instances
+    }
+
+    /// (Re-)register the instance; the caller has checked the max_instances limit.
+    fn mark_registered(&mut self, instance_handle: InstanceHandle) -> &mut RegisteredInstanceInfo {
+        let index = match self
+            .registered_instance_info
+            .iter()
+            .position(|x| x.instance_handle == instance_handle)
+        {
+            Some(index) => index,
+            None => {
+                self.registered_instance_info.push(RegisteredInstanceInfo {
+                    instance_handle,
+                    registered: false,
+                    last_write_time: None,
+                    samples: VecDeque::new(),
+                });
+                self.registered_instance_info.len() - 1
+            }
+        };
+        let instance_info = &mut self.registered_instance_info[index];
+        instance_info.registered = true;
+        instance_info
+    }
 }
 
 impl<T: RtpsWriter> DataWriterEntity<T> {
@@ -78,13 +122,8 @@ impl<T: RtpsWriter> DataWriterEntity<T> {
     ) -> DdsResult<()> {
         // The instance is registered only once every resource limit has been checked:
         // a refused write must leave no trace (lookup_instance, max_instances)
-        let is_registered = self
-            .registered_instance_info
-            .iter()
-            .any(|x| x.instance_handle == sample_instance_handle);
-        if !is_registered
-            && !(self.registered_instance_info.len() < self.qos.resource_limits.max_instances)
-        {
+        let is_registered = self.is_registered(&sample_instance_handle);
+        if !is_registered && !self.has_room_for_new_instance() {
             return Err(DdsError::OutOfResources);
         }
 
@@ -124,11 +163,7 @@ impl<T: RtpsWriter> DataWriterEntity<T> {
         }
 
         if !is_registered {
-            self.registered_instance_info.push(RegisteredInstanceInfo {
-                instance_handle: sample_instance_handle,
-                last_write_time: None,
-                samples: VecDeque::new(),
-            });
+            self.mark_registered(sample_instance_handle);
         }
 
         self.last_change_sequence_number += 1;
@@ -197,7 +232,7 @@ impl<T: RtpsWriter> DataWriterEntity<T> {
         let Some(instance_info) = self
             .registered_instance_info
             .iter_mut()
-            .find(|x| x.instance_handle == instance_handle)
+            .find(|x| x.registered && x.instance_handle == instance_handle)
         else {
             return Err(DdsError::BadParameter);
         };
@@ -241,21 +276,10 @@ impl<T: RtpsWriter> DataWriterEntity<T> {
 
         let instance_handle = get_instance_handle_from_key_holder_data(&key_holder_data)?;
 
-        if let Some(instance_info) = self
-            .registered_instance_info
-            .iter_mut()
-            .find(|x| x.instance_handle == instance_handle)
-        {
-            instance_info.last_write_time = Some(timestamp);
-        } else if self.registered_instance_info.len() < self.qos.resource_limits.max_instances {
-            self.registered_instance_info.push(RegisteredInstanceInfo {
-                instance_handle,
-                last_write_time: Some(timestamp),
-                samples: VecDeque::new(),
-            });
-        } else {
+        if !self.is_registered(&instance_handle) && !self.has_room_for_new_instance() {
             return Err(DdsError::OutOfResources);
         }
+        self.mark_registered(instance_handle).last_write_time = Some(timestamp);
 
         Ok(Some(instance_handle))
     }
@@ -283,12 +307,15 @@ impl<T: RtpsWriter> DataWriterEntity<T> {
         let Some(instance_info) = self
             .registered_instance_info
             .iter_mut()
-            .find(|x| x.instance_handle == instance_handle)
+            .find(|x| x.registered && x.instance_handle == instance_handle)
         else {
             return Err(DdsError::BadParameter);
         };
 
         instance_info.last_write_time = None;
+        // The writer no longer knows the instance: lookup_instance, dispose and a second
+        // unregister_instance treat it as unknown, and its max_instances slot is free again
+        instance_info.registered = false;
 
         let serialized_key =
             serialize(key_holder_data.as_dynamic_data(), &self.qos.representation)?;
